@@ -30,6 +30,8 @@ Definition simulate_cone (c : circuit) (leaves nodes : list label) : res (dict N
            do p <- eval_pattern (max_pattern n) (gtyp g) (map (pat_get d) (gops g));
            Ok (dset d node p)) nodes d0.
 
+Definition no_users_b {A : Type} (l : list A) : bool := match l with [] => true | _ => false end.
+
 (* circuit_size: the non-leaf nodes that are not NOT gates *)
 Definition cone_size (c : circuit) (leaves nodes : list label) : res nat :=
   foldM (fun k node =>
@@ -37,12 +39,14 @@ Definition cone_size (c : circuit) (leaves nodes : list label) : res nat :=
            do g <- get_gate c node;
            Ok (if gtype_beq (gtyp g) NOT then k else S k)) nodes 0%nat.
 
-(* outputs of the cone: circuit outputs and nodes with a user outside cut_nodes[cut] *)
+(* outputs of the cone (as repaired by fixes/D33.patch): circuit outputs, nodes without users,
+   and nodes with a user outside cut_nodes[cut] or among the leaves of the cut *)
 Definition cone_outputs (c : circuit) (leaves nodes : list label) : res (list label) :=
   foldM (fun acc node =>
            if memb node leaves then Ok acc else
            do us <- get_gate_users c node;
-           if memb node (outputs c) || negb (forallb (fun u => memb u nodes) us)
+           if memb node (outputs c) || no_users_b us
+              || negb (forallb (fun u => memb u nodes && negb (memb u leaves)) us)
            then Ok (acc ++ [node]) else Ok acc) nodes [].
 
 (* ---- evaluate_truth_table_with_dont_cares ----
